@@ -308,6 +308,8 @@ func (nfs *Nfs) NFSPROC3_WRITE(args nfstypes.WRITE3args) nfstypes.WRITE3res {
 		errRet(op, &reply.Status, nfstypes.NFS3ERR_NOSPC)
 		return reply
 	}
+	// build the post-operation attributes while the inode is still locked
+	fattr := ip.MkFattr()
 	// if not supporting unstable writes, upgrade stability
 	if !nfs.Unstable {
 		args.Stable = nfstypes.FILE_SYNC
@@ -343,7 +345,7 @@ func (nfs *Nfs) NFSPROC3_WRITE(args nfstypes.WRITE3args) nfstypes.WRITE3res {
 		reply.Resok.Count = nfstypes.Count3(count)
 		reply.Resok.Committed = args.Stable
 		reply.Resok.File_wcc.After.Attributes_follow = true
-		reply.Resok.File_wcc.After.Attributes = ip.MkFattr()
+		reply.Resok.File_wcc.After.Attributes = fattr
 	} else {
 		util.DPrintf(1, "Write transaction failed")
 		reply.Status = nfstypes.NFS3ERR_SERVERFAULT
